@@ -2,7 +2,7 @@
 (* Trace validation of the real l1.Client against L1.tla.
 
    trace.ndjson holds MANY runs, each introduced by a Reset event.  Every line is
-   {"ev": name, "x": int, "y": int, "q": int}.
+   {"ev": name, "x": int, "y": int, "q": int, "w": int}.
 
    Who logs what (harness/engines/l1): the scripted L1 provider is gated - every call of the client
    blocks until the scheduler answers it - and the scheduler acts only while the client is blocked.
@@ -12,21 +12,36 @@
      Mine / Finalise / Reorg / Push / SubFail   what the scripted L1 node did meanwhile
      Restart the harness stopped the client and started a new one on the same database
      Read    Blockchain.L1Head() read by the harness while the client is blocked (x = event id, 0 none)
-     Ret*    the scheduler's answer (x = 1 ok / 0 error, y = value)
+     Ret*    the scheduler's answer (x = 1 ok / 0 error, y = value; RetFin: w = 1 when the store
+             under the Blockchain was armed to fail the next Put of the L1-head record)
+     WriteFail  logged by the store wrapper at the Put it failed (x = event id of the head that was
+             to be written)
+     Stopped Client.Run returned by itself (x = 1 with an error, 0 without); the harness then reads
+             the head and starts a new client (Restart)
      NewHead EventListener.OnNewL1Head (x = event id)
+     Feed    a head taken from a subscription of the Blockchain's L1-head feed (x = event id); the
+             harness drains the subscription every time the client is blocked or has stopped, and
+             the client performs at most one SetL1Head between two provider calls, so the feed is
+             observed without loss and in order
    The one thing that cannot be observed is WHEN the select loop takes an update from the channel:
    Consume is a silent step here, allowed only while no call is pending, and the q field of the
    next Call pins how many were taken.  A head that was persisted must be announced (NewHead)
-   before the client's next call. *)
+   and seen on the feed (Feed) before the client's next call; a failed write must have been
+   observed (WriteFail) before the client's next call or its stop, and is neither announced nor
+   sent on the feed. *)
 EXTENDS L1, Json
 
 Trace == ndJsonDeserialize("trace.ndjson")
 
 VARIABLES l,        \* index of the next trace line
           pend,     \* the provider call the client is blocked in ("-" none)
-          announce  \* head persisted by the last setL1Head and not yet announced (0 none)
+          announce, \* head persisted by the last setL1Head and not yet announced (0 none)
+          fpend,    \* head persisted by the last setL1Head and not yet seen on the feed (0 none)
+          wpend     \* head whose write the last setL1Head was to fail, failure not yet observed (0 none)
 
-tvars == <<vars, l, pend, announce>>
+tvars == <<vars, l, pend, announce, fpend, wpend>>
+NoOblig == announce = 0 /\ fpend = 0 /\ wpend = 0
+NoOblig_ == announce' = 0 /\ fpend' = 0 /\ wpend' = 0
 
 HW == 7   \* TLC register: high-water mark of l
 
@@ -34,19 +49,19 @@ Ev_ == Trace[l]
 IsEvent(name) == l <= Len(Trace) /\ Ev_.ev = name
 Adv == l' = l + 1
 
-TraceInit == Init /\ l = 1 /\ pend = "-" /\ announce = 0 /\ TLCSet(HW, 1)
+TraceInit == Init /\ l = 1 /\ pend = "-" /\ NoOblig /\ TLCSet(HW, 1)
 
 (* a new run: everything back to the initial state, with this run's chunk size *)
 TraceReset ==
-  /\ IsEvent("Reset") /\ Adv /\ pend' = "-" /\ announce' = 0
+  /\ IsEvent("Reset") /\ Adv /\ pend' = "-" /\ NoOblig_
   /\ blocks' = [h \in 1..MaxBlocks |-> <<>>] /\ top' = 0 /\ fin' = 0 /\ nEv' = 0
   /\ l1of' = [e \in Ev |-> 0] /\ l2of' = [e \in Ev |-> 0]
   /\ reorgs' = 0 /\ subUp' = FALSE /\ subPos' = 0 /\ subErr' = FALSE /\ chan' = <<>> /\ delivered' = {}
   /\ pc' = "chainid" /\ chunk' = Ev_.x /\ cFin' = 0 /\ cTo' = 0 /\ cFound' = FALSE
-  /\ buffer' = [h \in Heights |-> 0] /\ stored' = 0 /\ fails' = 0 /\ restarts' = 0
-  /\ applied' = {} /\ removedSeen' = {}
+  /\ buffer' = [h \in Heights |-> 0] /\ stored' = 0 /\ fails' = 0 /\ wfails' = 0 /\ restarts' = 0
+  /\ applied' = {} /\ removedSeen' = {} /\ announced' = 0
 
-Keep == pend' = pend /\ announce' = announce
+Keep == pend' = pend /\ UNCHANGED <<announce, fpend, wpend>>
 
 (* ---- the scripted L1 node ---- *)
 TraceMine     == IsEvent("Mine") /\ Adv /\ Keep /\ Mine(Ev_.x)
@@ -57,10 +72,10 @@ TraceSubFail  == IsEvent("SubFail") /\ Adv /\ Keep /\ SubFail
 
 (* the harness stopped the client (context cancelled while it was blocked in a call, Run returned)
    and started a NEW client on the same database *)
-TraceRestart  == IsEvent("Restart") /\ Adv /\ pend' = "-" /\ announce = 0 /\ announce' = 0 /\ Restart
+TraceRestart  == IsEvent("Restart") /\ Adv /\ pend' = "-" /\ NoOblig /\ NoOblig_ /\ Restart
 
 (* ---- the client enters a provider method ---- *)
-Enter(m) == pend = "-" /\ announce = 0 /\ pend' = m /\ announce' = 0 /\ Adv
+Enter(m) == pend = "-" /\ NoOblig /\ pend' = m /\ NoOblig_ /\ Adv
 QOK == Ev_.q >= 0 => Len(chan') = Ev_.q
 
 TraceCallChainID == IsEvent("CallChainID") /\ Enter("ChainID") /\ pc = "chainid" /\ UNCHANGED vars
@@ -82,23 +97,37 @@ TraceCallWatch ==
 Leave(m) == pend = m /\ pend' = "-" /\ Adv
 Ok == Ev_.x = 1
 
-TraceRetChainID == IsEvent("RetChainID") /\ Leave("ChainID") /\ ChainID(Ok) /\ announce' = 0
-TraceRetLatest  == IsEvent("RetLatest") /\ Leave("Latest") /\ Latest(Ok) /\ (Ok => Ev_.y = top) /\ announce' = 0
+TraceRetChainID == IsEvent("RetChainID") /\ Leave("ChainID") /\ ChainID(Ok) /\ NoOblig_
+TraceRetLatest  == IsEvent("RetLatest") /\ Leave("Latest") /\ Latest(Ok) /\ (Ok => Ev_.y = top) /\ NoOblig_
 TraceRetFilter  == /\ IsEvent("RetFilter") /\ Leave("Filter")
                    /\ Ok => Ev_.y = Cardinality(EventsOf(ChunkFrom, cTo))
-                   /\ Filter(Ok) /\ announce' = 0
+                   /\ Filter(Ok) /\ NoOblig_
 TraceRetFin ==
   /\ IsEvent("RetFin") /\ Leave("Fin") /\ (Ok => Ev_.y = fin)
-  /\ \/ pc = "fin0" /\ Fin0(Ok) /\ announce' = 0
+  /\ \/ pc = "fin0" /\ Fin0(Ok) /\ NoOblig_
      \/ /\ pc \in {"catchfin", "tickfin"}
-        /\ (CatchFin(Ok) \/ TickFin(Ok))
-        /\ announce' = IF Ok /\ Cand(fin) # {} THEN stored' ELSE 0
-TraceRetWatch == IsEvent("RetWatch") /\ Leave("Watch") /\ Watch(Ok) /\ announce' = 0
+        /\ LET writes == Ok /\ Cand(fin) # {}            \* this setL1Head reaches Blockchain.SetL1Head
+               wok == ~writes \/ Ev_.w = 0               \* an armed store fails the Put, if there is one
+               head == IF writes THEN HeadOf(fin) ELSE 0 IN
+           /\ (CatchFin(Ok, wok) \/ TickFin(Ok, wok))
+           /\ announce' = (IF wok THEN head ELSE 0)
+           /\ fpend' = (IF wok THEN head ELSE 0)
+           /\ wpend' = (IF wok THEN 0 ELSE head)
+TraceRetWatch == IsEvent("RetWatch") /\ Leave("Watch") /\ Watch(Ok) /\ NoOblig_
 
 (* ---- observations of the client's effects ---- *)
 TraceNewHead == /\ IsEvent("NewHead") /\ Adv /\ pend' = pend
-                /\ announce # 0 /\ Ev_.x = announce /\ announce' = 0 /\ UNCHANGED vars
-TraceRead    == IsEvent("Read") /\ Adv /\ Keep /\ pend # "-" /\ Ev_.x = stored /\ UNCHANGED vars
+                /\ announce # 0 /\ Ev_.x = announce /\ announce' = 0 /\ UNCHANGED <<vars, fpend, wpend>>
+(* the feed: sent inside Blockchain.SetL1Head after the write; the harness takes it from its
+   subscription at the next point where the client is blocked or stopped, hence after NewHead *)
+TraceFeed    == /\ IsEvent("Feed") /\ Adv /\ pend' = pend
+                /\ fpend # 0 /\ Ev_.x = fpend /\ fpend' = 0 /\ announce = 0 /\ UNCHANGED <<vars, announce, wpend>>
+TraceWriteFail == /\ IsEvent("WriteFail") /\ Adv /\ pend' = pend
+                  /\ wpend # 0 /\ Ev_.x = wpend /\ wpend' = 0 /\ UNCHANGED <<vars, announce, fpend>>
+(* Run returned by itself: only the stop after a failed write is a behaviour of the specification *)
+TraceStopped == IsEvent("Stopped") /\ Adv /\ Keep /\ pend = "-" /\ NoOblig /\ pc = "stopped" /\ UNCHANGED vars
+(* the head is read while the client is blocked in a call or has stopped *)
+TraceRead    == IsEvent("Read") /\ Adv /\ Keep /\ (pend # "-" \/ pc = "stopped") /\ Ev_.x = stored /\ UNCHANGED vars
 
 (* ---- the unobservable step ---- *)
 TraceConsume == pend = "-" /\ Consume /\ l' = l /\ Keep
@@ -108,7 +137,7 @@ TraceNext ==
   \/ TraceMine \/ TraceFinalise \/ TraceReorg \/ TracePush \/ TraceSubFail \/ TraceRestart
   \/ TraceCallChainID \/ TraceCallLatest \/ TraceCallFilter \/ TraceCallFin \/ TraceCallWatch
   \/ TraceRetChainID \/ TraceRetLatest \/ TraceRetFilter \/ TraceRetFin \/ TraceRetWatch
-  \/ TraceNewHead \/ TraceRead
+  \/ TraceNewHead \/ TraceFeed \/ TraceWriteFail \/ TraceStopped \/ TraceRead
   \/ TraceConsume
 
 (* acceptance: some behaviour of L1 (with silent Consumes) matches the whole file *)
@@ -117,5 +146,5 @@ TraceAccepted ==
   IF TLCGet(HW) = Len(Trace) + 1 THEN TRUE
   ELSE Print(<<"TRACE-REJECTED-AT", TLCGet(HW)>>, FALSE)
 
-traceview == <<vars, l, pend, announce>>
+traceview == <<vars, l, pend, announce, fpend, wpend>>
 =============================================================================
